@@ -9,6 +9,8 @@ import (
 	"encoding/json"
 	"fmt"
 	"io"
+	"math"
+	"math/big"
 	"os"
 	"os/exec"
 	"path/filepath"
@@ -681,10 +683,78 @@ func sweepIterators(c *core.Ctx, judge judgeFn) {
 	})
 }
 
+// sweepFiniteRanges: ranges of fewer than 5 elements whose bounds lie at the ends of the int64 range, consumed in
+// every way. These programs terminate by construction, so running out of fuel means the interpreter does not
+// end (a successor that wraps around is never >= stop); the listed elements are also compared with math/big.
+func sweepFiniteRanges(c *core.Ctx, judge judgeFn) {
+	lit := func(v *big.Int) string {
+		if v.Cmp(big.NewInt(math.MinInt64)) == 0 {
+			return "(-9223372036854775807 - 1)"
+		}
+		if v.Sign() < 0 {
+			return "(" + v.String() + ")"
+		}
+		return v.String()
+	}
+	max, min := big.NewInt(math.MaxInt64), big.NewInt(math.MinInt64)
+	type rcase struct {
+		src, want string
+	}
+	var cases []rcase
+	for _, up := range []bool{true, false} {
+		for off := int64(0); off <= 9; off++ {
+			for _, stopOff := range []int64{0, 2} {
+				for _, st := range []int64{1, 2, 5, 9, math.MaxInt64} {
+					var start, stop, step *big.Int
+					if up {
+						start, stop, step = new(big.Int).Sub(max, big.NewInt(off)), new(big.Int).Sub(max, big.NewInt(stopOff)), big.NewInt(st)
+					} else {
+						start, stop, step = new(big.Int).Add(min, big.NewInt(off)), new(big.Int).Add(min, big.NewInt(stopOff)), big.NewInt(-st)
+					}
+					var elems []string
+					for cur := new(big.Int).Set(start); (up && cur.Cmp(stop) < 0) || (!up && cur.Cmp(stop) > 0); cur = new(big.Int).Add(cur, step) {
+						elems = append(elems, cur.String())
+						if len(elems) > 12 {
+							break
+						}
+					}
+					if len(elems) > 4 {
+						continue
+					}
+					r := "(" + lit(start) + ":" + lit(stop) + ":" + lit(step) + ")"
+					want := "[" + strings.Join(elems, ", ") + "]"
+					cases = append(cases, rcase{"[" + r + ".A, " + r + "@{|x| x}, " + r + "$([]){|a, x| a + [x]}, " + r + "._iter.{|i| [i.try.next.val, i.try.next.val, i.try.next.val, i.try.next.val, i.try.next.val]@{|x| x}}]",
+						"[" + want + ", " + want + ", " + want + ", " + want + "]"})
+				}
+			}
+		}
+	}
+	c.Note("finite_ranges_near_int64_limits", len(cases))
+	tk.Batched(c, 50, sourcePrelude, func(emit func(scase)) {
+		for i := range cases {
+			emit(scase{Mode: "finite-range", Src: cases[i].src, Stdin: cases[i].want})
+		}
+	}, func(t scase) string { return t.Src }, func(t scase, o panrun.Obs) { judgeFiniteRange(c, judge, t, o) })
+}
+
+func judgeFiniteRange(c *core.Ctx, judge judgeFn, t scase, o panrun.Obs) {
+	if o.Kind == "discard" {
+		c.Validated(1)
+		c.Outcome("finite-range:does-not-end")
+		c.Violation(core.Violation{Key: "does-not-end/finite-range-near-int64-limit", Case: core.JSON(t), Desc: t.Src, Expected: t.Stdin + " (the range has fewer than 5 elements)", Observed: "evaluation does not end (stopped by the fuel guard): " + o.Panic, Repro: t.Src + ".p\n"})
+		return
+	}
+	if o.Kind == "value" && o.Repr != t.Stdin {
+		c.Violation(core.Violation{Key: "wrong-elements/finite-range-near-int64-limit", Case: core.JSON(t), Desc: t.Src, Expected: t.Stdin, Observed: o.Short(), Repro: t.Src + ".p\n"})
+	}
+	judge("finite range: "+t.Src, t, t.Src+"\n", o, "finite-range")
+}
+
 func run(c *core.Ctx) {
 	judge := newJudge(c)
 	sweepREPL(c, judge)
 	sweepIterators(c, judge)
+	sweepFiniteRanges(c, judge)
 	sweepCLI(c, judge)
 	sweepSources(c, judge)
 	sweepTokens(c, judge)
@@ -720,6 +790,10 @@ func replay(c *core.Ctx, raw json.RawMessage) {
 	}
 	if s.Mode == "repl" {
 		judge("REPL session "+fmt.Sprintf("%q", s.Stdin), s, "", runREPL(s.Stdin), "repl")
+		return
+	}
+	if s.Mode == "finite-range" {
+		judgeFiniteRange(c, judge, s, r.EvalSrc(sourcePrelude+s.Src, ""))
 		return
 	}
 	o := r.EvalSrc(sourcePrelude+s.Src, s.Stdin)
